@@ -14,7 +14,11 @@
 //	      inline-table, table parts, list items, inline-block / -flex / -grid, flex and grid
 //	      containers and items, blockified inlines, replaced elements (kinds.go);
 //	(iii) svg: the same kind of lists in the syntax of the SVG `transform` attribute on a
-//	      <rect>, in several spellings (comma / space separators, padding).
+//	      <rect>, in several spellings (comma / space separators, padding);
+//	      (iii') svg-clip: the matrix in effect when an element is filled AFTER a clip path with
+//	      transforms (on the clipPath, on its child, bounding-box units) was applied to it, and when
+//	      the children of the clipPath are drawn, under every viewBox of a menu that holds huge
+//	      user spaces (determinant of the viewBox scale below 1e-6) (clip.go).
 package c17
 
 import (
@@ -269,6 +273,15 @@ func (c *check) Init(tier string, seed int64) engine.Space {
 			}})
 	}
 
+	// ---- (iii') the matrix after a clip path was applied
+	clipF := c.newClipFamily(thorough)
+	c.sections = append(c.sections, section{"svg-clip", clipF.units,
+		func(u int64, ctx *engine.Ctx) { c.runClip(clipF, u, ctx) },
+		func(u int64) any {
+			vb, pl, own, x1 := clipF.decode(u)
+			return map[string]any{"first": clipDoc(vb, pl, own, x1, nil), "cases": len(clipF.menu)}
+		}})
+
 	c.sections = append(c.sections, section{"svg-specials", 1,
 		func(u int64, ctx *engine.Ctx) { c.runSVGSpecials(ctx) },
 		func(u int64) any {
@@ -321,7 +334,7 @@ func (c *check) Init(tier string, seed int64) engine.Space {
 	}
 	return engine.Space{
 		Units: units, Chunk: 4, Level: "model_checking",
-		Rule: "algebra: every matrix over the 6-value entry set (unary laws), every ordered pair over the 3-value set, every ordered triple over each 2-value set; css: every transform list of the prefix tree over the function menu, shortest first (lengths 1 and 2 over the whole menu x every transform-origin, length 3 over the menus and origins given in bounds.three_function_lists), plus a few special spellings; box-kinds: the lists and origins of bounds.box_kind_lists x every box kind of bounds.box_kinds (the declarations on the element itself); svg: the same for the SVG menu x every spelling. A css/svg case is non-trivial when the block/rect was painted and a Transform was handed to the backend (or, for a non-invertible list, when nothing was painted)",
+		Rule: "algebra: every matrix over the 8-value entry set (unary laws; the set holds 1/2048 and 1/8192, so determinants down to 2^-26), every ordered pair over the 3-value set, every ordered triple over each 2-value set; css: every transform list of the prefix tree over the function menu, shortest first (lengths 1 and 2 over the whole menu x every transform-origin, length 3 over the menus and origins given in bounds.three_function_lists), plus a few special spellings; box-kinds: the lists and origins of bounds.box_kind_lists x every box kind of bounds.box_kinds (the declarations on the element itself); svg: the same for the SVG menu x every spelling; svg-clip: every viewBox x clip placement x own transform x transform of the clipPath x transform of its child of bounds.svg_clip. A css/svg case is non-trivial when the block/rect was painted and a Transform was handed to the backend (or, for a non-invertible list, when nothing was painted)",
 		Bounds: map[string]any{
 			"units_per_section":    secs,
 			"entry_set_unary":      set6,
@@ -343,6 +356,8 @@ func (c *check) Init(tier string, seed int64) engine.Space {
 			"svg_core_functions":   names(c.svgCore),
 			"svg_spellings":        snames,
 			"svg_draws":            svgCases,
+			"svg_clip": map[string]any{"draws": clipF.cases(), "viewBox": clipVBNames(), "clip_on": []string{"the filled rect (userSpaceOnUse)", "the filled rect (objectBoundingBox)", "a parent g"},
+				"own_transform": fnNames(clipF.own), "clippath_and_child_transform": map[string]string{"quick": "none + the non-singular functions of the svg core menu", "thorough": "none + the non-singular functions of the whole svg menu"}[tier]},
 			"max_list_length":      3,
 			"dev_section_filter":   only,
 			"three_function_lists": map[string]string{"quick": "core menus; css with the origins (initial) and 1em 20%", "thorough": "css: core menu x every origin + whole menu x {(initial), 1em 20%}; svg: whole menu"}[tier],
@@ -354,6 +369,7 @@ func (c *check) Init(tier string, seed int64) engine.Space {
 			"one block (absolutely positioned, padding, no border) and one <rect>; nesting of transformed elements is explored by the shared-rule family only",
 			"box-kinds: the reference box is the painted background rectangle of the element (checked against the expected border box), extended by the 10px caption for the two caption kinds (CSS Transforms 1: the reference box of a table is the border box of its table wrapper box)",
 			"numbers/lengths/angles outside the listed representatives behave like their representative",
+			"svg-clip: matrices are compared after removing the viewBox transform (reference of SVG 2 §8.2 for the 100x100 viewport); the implementation puts the matrix back through a float32 inverse, so the tolerance for the clipped element grows with the condition of what the clip path multiplied in: 2e-4·(1+|ref|) + 2e-6·max|N|·max|N⁻¹|, N = own transform · clip product",
 		},
 	}
 }
@@ -714,6 +730,8 @@ func (c *check) FeaturesOf(desc string) []string {
 			return kindFeatures(find(c.cssFns, rest), org, kind)
 		}
 		return listFeatures("css", find(c.cssFns, rest), org.tag)
+	case strings.HasPrefix(desc, "svg-clip:"):
+		return []string{"svg", "clip"}
 	case strings.HasPrefix(desc, "svg:"):
 		return []string{"svg"}
 	case kind != nil:
